@@ -16,5 +16,6 @@ git -C "$R" checkout -- .
 cp /tmp/evidence_$PID.bak evidence/$PID.json 2>/dev/null
 # regenerate the source facts for the real repository
 /venv/bin/python extract/facts.py
+/venv/bin/python extract/exprs.py
 grep -E "VIOLATION|NOTE" /tmp/try_$PID.log | head -4
 echo "exit=$rc"
